@@ -81,6 +81,8 @@ pub struct Built {
 pub fn build(rng: &mut Rng, engine: &Engine, appid: u32, n_players: usize, n_rules: usize, allow_compressed: bool) -> Built {
     // the bzip2 payloads come from a subprocess, which the Miri interpreter cannot spawn
     let allow_compressed = allow_compressed && !cfg!(miri);
+    // under the interpreter a state of tens of thousands of rules costs minutes: the big ones stay native
+    let (n_players, n_rules) = if cfg!(miri) { (n_players.min(40), n_rules.min(200)) } else { (n_players, n_rules) };
     let gold = matches!(engine, Engine::GoldSrc(_));
     let n_rules = if gold { n_rules.min(2000) } else { n_rules };
     let state = State::gen(rng, engine, appid, n_players, n_rules);
